@@ -212,8 +212,8 @@ func stmtInline(p *packages.Package, file *ast.File, call *ast.CallExpr, cfd *as
 	}
 	if usesDefer {
 		// the helper's deferred calls run when the helper returns; inlined they run when the CALLER returns. That is the
-		// same moment only for `return H(...)` as the last statement of the caller's body.
-		tail := form == fReturn && idx == len(list)-1 && stmtIdx+2 < len(path)
+		// same moment only for `return H(...)` (or a bare `H(...)`) as the last statement of the caller's body.
+		tail := (form == fReturn || form == fExpr) && idx == len(list)-1 && stmtIdx+2 < len(path)
 		if tail {
 			switch fnNode := path[stmtIdx+2].(type) {
 			case *ast.FuncDecl:
@@ -1133,18 +1133,23 @@ func deferWrap(p *packages.Package, file *ast.File, call *ast.CallExpr, content 
 	fset := p.Fset
 	off := func(pos token.Pos) int { return fset.Position(pos).Offset }
 	path, _ := astutil.PathEnclosingInterval(file, call.Pos(), call.End())
-	var ds *ast.DeferStmt
+	var stmtCall *ast.CallExpr
 	var encl *ast.FuncDecl
 	for _, n := range path {
-		if d, ok := n.(*ast.DeferStmt); ok && ds == nil {
-			ds = d
+		if d, ok := n.(*ast.DeferStmt); ok && stmtCall == nil {
+			stmtCall = d.Call
+		}
+		// `go H(args)` likewise: the operands are evaluated when the goroutine is started, the wrapped form evaluates
+		// them inside it
+		if g, ok := n.(*ast.GoStmt); ok && stmtCall == nil {
+			stmtCall = g.Call
 		}
 		if fd, ok := n.(*ast.FuncDecl); ok {
 			encl = fd
 		}
 	}
-	if ds == nil || ds.Call != call || encl == nil {
-		return nil, fmt.Errorf("not the call of a defer statement")
+	if stmtCall == nil || stmtCall != call || encl == nil {
+		return nil, fmt.Errorf("not the call of a defer or go statement")
 	}
 	assigned := map[types.Object]bool{}
 	ast.Inspect(encl.Body, func(n ast.Node) bool {
